@@ -1,13 +1,19 @@
 import Driver.Latch
 import Driver.LockFam
 import Driver.Barrier
+import Driver.HB
+import Driver.Deferred
+import Driver.Trigger
+import Driver.TripWire
+import Driver.SOH
 import Driver.DObj
 open Driver
 
-def comps : List Comp := [LatchD.comp, LockFamD.comp, BarrierD.comp, DObjD.comp]
+def comps : List Comp := [LatchD.comp, LockFamD.comp, BarrierD.comp, DeferredD.comp, TripWireD.comp, SOHD.comp, SOHD.compNoTap, TriggerD.comp, DObjD.comp]
 
 def main (args : List String) : IO UInt32 := do
   match args with
+  | ["hb"] => Driver.HBD.run
   | [name] =>
       match comps.find? (·.name == name) with
       | some c => runComp c
